@@ -48,14 +48,18 @@ def run(v, tier, seed, replay=None):
                 v.violation('C06:write:%s' % ('hang' if x.startswith('HANG') else 'fail'),
                             'write session with container size %d (internal buffer set up for 0x20000), %d objects of %d payload bytes: %s [%s]' % (w['cs'], w['nobj'], w['tlen'], x[:80], name),
                             {'scenario': w['line'][:200], 'implementation': x[:200]})
-    # the listed finding: one read request larger than the buffer
+    # one read request larger than the buffer (deadlocked before the repair of UncompressedFile::read; C06_read_request_above_buffer_finishes)
     big, _ = sessrun.big_read_file(mexe, 3, 0x20000, rng, text=200000)
-    ko = sessrun.run_impl(plain, ['FE -1 0 0 ' + big.hex()])
-    if ko[0].startswith('HANG'):
-        v.violation('read-request-above-buffer', 'reading a file whose objects need a single read request larger than the internal buffer never returns: ' + ko[0][:60],
-                    {'file': '3 AppText objects with 200000-byte texts in 128 KiB containers', 'implementation': ko[0][:200]})
-    elif not ko[0].startswith('FE ok'):
-        v.violation('C06:bigrequest', 'reading a file with 200000-byte texts: ' + ko[0][:100], {'implementation': ko[0][:200]})
+    big2, _ = sessrun.big_read_file(mexe, 2, 0x8000, rng, text=300000)
+    for nm, data, bl in (('plain', big, plain), ('sched', big, sched), ('plain', big2, plain)):
+        ko = sessrun.run_impl(bl, ['FE -1 0 0 ' + data.hex()], seed + 9)
+        if ko[0].startswith('HANG'):
+            nbad += 1
+            v.violation('read-request-above-buffer', 'reading a file whose objects need a single read request larger than the internal buffer never returns: %s [%s]' % (ko[0][:60], nm),
+                        {'file': 'AppText objects with 200000/300000-byte texts in 128/32 KiB containers', 'implementation': ko[0][:200]})
+        elif not ko[0].startswith('FE ok') and ko[0] != 'SKIPPED':
+            nbad += 1
+            v.violation('C06:bigrequest', 'reading a file with 200000-byte texts: %s [%s]' % (ko[0][:100], nm), {'implementation': ko[0][:200]})
     if not ok and not v.violations:
         for fl in failed:
             v.violation('coq:' + fl['lemma'], 'proof obligation %s (%s:%d) no longer checks: %s' % (fl['lemma'], fl['file'], fl['line'], fl['error'][:200]),
@@ -64,11 +68,11 @@ def run(v, tier, seed, replay=None):
     v.coverage.update({
         'obligations': info['obligations'], 'discharged': info['discharged'], 'checker_cmd': info['checker_cmd'],
         'trusted_base': TRUSTED + info['print_assumptions'], 'failed_obligations': info['failed'],
-        'evaluations': len(cases) * len(runs) + 2 * len(wl) + 1, 'distinct_nontrivial': len(cases) + len(wl) + 1,
-        'rule': 'read sessions on assembled files large enough to fill the pipeline (9000 objects in 4 KiB containers, 6000 in 128 KiB containers, 30 in 64-byte containers): read k in {0,3,11,all} objects, pause so that both workers block on full buffers, then close() / destroy / close twice then destroy; write sessions with container sizes below, at and above the construction-time buffer and objects larger than both; each on the plain build and on builds with seeded yield/sleep injection at every lock/unlock/wait. A watchdog expiry is a hang. Non-trivial = distinct scenario.',
+        'evaluations': len(cases) * len(runs) + 2 * len(wl) + 3, 'distinct_nontrivial': len(cases) + len(wl) + 2,
+        'rule': 'read sessions on assembled files large enough to fill the pipeline (9000 objects in 4 KiB containers, 6000 in 128 KiB containers, 30 in 64-byte containers): read k in {0,3,11,all} objects, pause so that both workers block on full buffers, then close() / destroy / close twice then destroy; write sessions with container sizes below, at and above the construction-time buffer and objects larger than both; read sessions over files whose objects (200000 / 300000 bytes) need a single read request larger than the internal buffer; each on the plain build and on builds with seeded yield/sleep injection at every lock/unlock/wait. A watchdog expiry is a hang. Non-trivial = distinct scenario.',
         'builds': [n for n, _ in runs], 'hangs_or_crashes': nbad,
         'samples': [c['line'][:60] + '...' for c in cases[:3]] + [w['line'][:80] + '...' for w in wl[:2]],
-        'theorems': ['C06_write_stuck_free', 'C06_write_terminates', 'C06_read_stuck_free', 'C06_read_request_above_buffer_refuted', 'C06_code_shape'],
+        'theorems': ['C06_write_stuck_free', 'C06_write_terminates', 'C06_read_stuck_free', 'C06_read_request_above_buffer_finishes', 'C06_code_shape'],
     })
-    v.assumptions += ['termination is under weak fairness; the read theorem carries the hypothesis that every single read request fits the buffer (refuted twin + known finding without it)']
+    v.assumptions += ['termination is under weak fairness of the scheduler']
     return 'proof'
